@@ -595,4 +595,152 @@ Proof.
     rewrite <- !map_flat_map, <- map_app. exact proto_keys_nodup.
 Qed.
 
+(* ---------- the -O translation unit (header + source of optimization mode, with any -F list) ---------- *)
+
+Definition otoks (fd : fdef) : list tok :=
+  let pth := fd_path fd in
+  match fd_def fd with
+  | DConst n _ => [KMacro (dname LC KConstant px pth n)]
+  | DAlias n t => [KTypedef (dname LC KAlias px pth n)]
+  | DEnum n _ ms =>
+      KTypedef (dname LC KEnum px pth n) :: map (fun m => KMacro (dname LC KEnumField px pth (fst m))) ms
+  | DMsg n x nested fs =>
+      let m := dname LC KMessage px pth n in
+      [KSize (upper_case (snake_case m)); KTag m] ++
+      (if negb (passes_filter flt (DMsg n x nested fs)) then [] else [KEnc m; KDec m])
+  end.
+Definition uotoks (fd : fdef) : list tok :=
+  match fd_def fd with
+  | DMsg n x nested fs =>
+      let m := dname LC KMessage px (fd_path fd) n in
+      if negb (passes_filter flt (DMsg n x nested fs)) then [] else [KEnc m; KDec m]
+  | _ => [] end.
+
+Lemma otoks_keys fd :
+  map dkey (dispatch_one s i flt H_DataStructuresList fd) ++ map dkey (dispatch_one s i flt C_BoundDefinitionListOpMode fd)
+  = map key_of_tok (otoks fd).
+Proof.
+  destruct fd as [pth d]. unfold otoks, dispatch_one. cbn [fd_def fd_path].
+  destruct d as [n v | n t | n w ms | n x nested fs];
+    cbn [dkind_of dispatch dispatch_filtered andb def_blocks expand blocks_of flat_map app leaf fd_path fd_def].
+  - reflexivity.
+  - reflexivity.
+  - rewrite !app_nil_r. cbn [map dkey mk d_ns d_name key_of_tok]. f_equal. rewrite !map_map. reflexivity.
+  - destruct (negb (passes_filter flt (DMsg n x nested fs))); reflexivity.
+Qed.
+Lemma uotoks_keys fd :
+  map dkey (dispatch_one s i flt H_FunctionDeclarationsForUserListOpMode fd) = map key_of_tok (uotoks fd).
+Proof.
+  destruct fd as [pth d]. unfold uotoks, dispatch_one. cbn [fd_def fd_path].
+  destruct d as [n v | n t | n w ms | n x nested fs];
+    cbn [dkind_of dispatch dispatch_filtered andb def_blocks expand blocks_of flat_map app leaf fd_path fd_def]; try reflexivity.
+  destruct (negb (passes_filter flt (DMsg n x nested fs))); reflexivity.
+Qed.
+
+Lemma otoks_incl fd : incl (otoks fd) (toks fd) /\ incl (uotoks fd) (toks fd).
+Proof.
+  unfold otoks, uotoks, toks. destruct (fd_def fd) as [n v | n ty | n w ms | n x nested fs]; split; intros t Ht;
+    try (cbn [In] in Ht; contradiction); try exact Ht.
+  - destruct Ht as [<- | []]. left. reflexivity.
+  - apply in_app_or in Ht. destruct Ht as [Ht | Ht]; [apply in_or_app; left; exact Ht|].
+    destruct (negb (passes_filter flt (DMsg n x nested fs))); [contradiction|].
+    apply in_or_app. right. apply in_or_app. right. apply in_or_app. right. cbn [In] in *. intuition.
+  - destruct (negb (passes_filter flt (DMsg n x nested fs))); [contradiction|].
+    apply in_or_app. right. apply in_or_app. right. apply in_or_app. right. cbn [In] in *. intuition.
+Qed.
+
+Lemma otoks_nodup fd : In fd fl -> NoDup (otoks fd) /\ NoDup (uotoks fd).
+Proof.
+  intros Hfd. pose proof (toks_nodup fd Hfd) as Ht. unfold otoks, uotoks, toks in *.
+  destruct (fd_def fd) as [n v | n ty | n w ms | n x nested fs].
+  - split; [exact Ht | constructor].
+  - split; [repeat constructor; intros [] | constructor].
+  - split; [exact Ht | constructor].
+  - split; destruct (negb (passes_filter flt (DMsg n x nested fs))); cbn [app]; repeat constructor; cbn [In]; intuition discriminate.
+Qed.
+
+Lemma sub_keys_nodup (g : fdef -> list tok) :
+  (forall fd, In fd fl -> NoDup (g fd)) -> (forall fd, incl (g fd) (toks fd)) ->
+  NoDup (map key_of_tok (flat_map g fl)).
+Proof.
+  intros Hn Hi'. apply NoDup_map_inj_on.
+  - apply NoDup_flat_map; [exact Hn|]. intros l1 x l2 y l3 E t Hx Hy.
+    apply (toks_disjoint l1 x l2 y l3 t E); [apply (Hi' x) | apply (Hi' y)]; assumption.
+  - intros a b Ha Hb E.
+    apply in_flat_map in Ha. destruct Ha as [fa [Hfa Ha]]. apply in_flat_map in Hb. destruct Hb as [fb [Hfb Hb]].
+    apply key_of_tok_inj; [apply (toks_adm fa a Hfa); apply Hi'; exact Ha | apply (toks_adm fb b Hfb); apply Hi'; exact Hb | exact E].
+Qed.
+
+Lemma cbo_nonproto : forallb (fun d => negb (is_proto d)) (dispatcher s i flt C_BoundDefinitionListOpMode) = true.
+Proof.
+  apply disp_kinds. intros [pth d]. unfold dispatch_one. cbn [fd_def].
+  destruct d as [n v | n ty | n w ms | n x nested fs];
+    cbn [dkind_of dispatch dispatch_filtered andb def_blocks expand blocks_of flat_map app leaf fd_path fd_def forallb];
+    try reflexivity.
+  destruct (negb (passes_filter flt (DMsg n x nested fs))); reflexivity.
+Qed.
+Lemma userop_proto : forallb is_proto (dispatcher s i flt H_FunctionDeclarationsForUserListOpMode) = true.
+Proof.
+  apply disp_kinds. intros [pth d]. unfold dispatch_one. cbn [fd_def].
+  destruct d as [n v | n ty | n w ms | n x nested fs];
+    cbn [dkind_of dispatch dispatch_filtered andb def_blocks expand blocks_of flat_map app leaf fd_path fd_def forallb];
+    try reflexivity.
+  destruct (negb (passes_filter flt (DMsg n x nested fs))); reflexivity.
+Qed.
+
+Definition opt_decl : decl := mk DkDefine NsMacro "BITPROTO_OPTIMIZATION_MODE" [].
+
+Lemma tuo_decls_eq :
+  decls_of (render_items s i TgHO flt ++ render_items s i TgCO flt) =
+  guard_decl :: opt_decl :: dispatcher s i flt H_DataStructuresList
+             ++ dispatcher s i flt H_FunctionDeclarationsForUserListOpMode ++ dispatcher s i flt C_BoundDefinitionListOpMode.
+Proof.
+  rewrite items_TgHO, items_TgCO. unfold disp.
+  change (h_guard s i :: ?l) with ([h_guard s i] ++ l). change (c_self_include s i :: ?l) with ([c_self_include s i] ++ l).
+  change (h_includes s i ++ IDecl ?d :: ?l) with (h_includes s i ++ [IDecl d] ++ l).
+  rewrite !decls_of_app, !decls_of_decls. unfold h_includes. rewrite decls_of_imports by (intros x; eauto).
+  cbn [decls_of flat_map h_guard c_self_include app]. rewrite <- !app_assoc. reflexivity.
+Qed.
+
+Lemma opt_fresh t : In t (flat_map toks fl) -> key_of_tok t <> dkey opt_decl.
+Proof.
+  intros Ht E. apply in_flat_map in Ht. destruct Ht as [fd [Hfd Ht]]. pose proof (toks_adm fd t Hfd Ht) as A.
+  change (dkey opt_decl) with (NsMacro, "BITPROTO_OPTIMIZATION_MODE") in E.
+  destruct t; cbn [key_of_tok adm] in *; try discriminate E; pose proof (f_equal snd E) as Hs; cbn [snd] in Hs; clear E.
+  subst x. vm_compute in A. discriminate.
+Qed.
+
+Theorem names_unique_CO : unique_b (decls_of (render_items s i TgHO flt ++ render_items s i TgCO flt)) = true.
+Proof.
+  rewrite tuo_decls_eq. unfold unique_b. apply andb_true_iff. split.
+  - change (guard_decl :: opt_decl :: ?l) with ([guard_decl; opt_decl] ++ l). rewrite !filter_app.
+    rewrite (filter_all _ _ ds_nonproto), (filter_all _ _ cbo_nonproto).
+    rewrite (filter_none _ _ (negb_negb_fun _ userop_proto)).
+    cbn [filter guard_decl opt_decl mk is_proto d_kind negb app]. apply nodup_keys_NoDup.
+    cbn [map]. rewrite map_app.
+    assert (P : Permutation (map dkey (dispatcher s i flt H_DataStructuresList) ++ map dkey (dispatcher s i flt C_BoundDefinitionListOpMode))
+                            (map key_of_tok (flat_map otoks fl))).
+    { unfold dispatcher. rewrite !map_flat_map. rewrite flat_map_app_perm.
+      rewrite (flat_map_ext _ (fun fd => map key_of_tok (otoks fd))) by (intros fd; apply otoks_keys). reflexivity. }
+    assert (Hsub : forall t, In t (flat_map otoks fl) -> In t (flat_map toks fl)).
+    { intros t Ht. apply in_flat_map in Ht. destruct Ht as [fd [Hfd Ht]]. apply in_flat_map. exists fd.
+      split; [exact Hfd | apply (proj1 (otoks_incl fd)); exact Ht]. }
+    constructor; [|constructor].
+    + intros [Hin | Hin]; [discriminate Hin|]. apply (Permutation_in _ P) in Hin. apply in_map_iff in Hin.
+      destruct Hin as [t [E Ht]]. apply (guard_fresh t (Hsub t Ht)). exact E.
+    + intros Hin. apply (Permutation_in _ P) in Hin. apply in_map_iff in Hin. destruct Hin as [t [E Ht]].
+      apply (opt_fresh t (Hsub t Ht)). exact E.
+    + apply (Permutation_NoDup (Permutation_sym P)). apply sub_keys_nodup.
+      * intros fd Hfd. apply (proj1 (otoks_nodup fd Hfd)).
+      * intros fd. apply (proj1 (otoks_incl fd)).
+  - change (guard_decl :: opt_decl :: ?l) with ([guard_decl; opt_decl] ++ l). rewrite !filter_app.
+    rewrite (filter_none _ _ ds_nonproto), (filter_none _ _ cbo_nonproto). rewrite (filter_all _ _ userop_proto).
+    cbn [filter guard_decl opt_decl mk is_proto d_kind app]. rewrite app_nil_r. apply nodup_keys_NoDup.
+    unfold dispatcher. rewrite map_flat_map.
+    rewrite (flat_map_ext _ (fun fd => map key_of_tok (uotoks fd))) by (intros fd; apply uotoks_keys).
+    rewrite <- map_flat_map. apply sub_keys_nodup.
+    + intros fd Hfd. apply (proj2 (otoks_nodup fd Hfd)).
+    + intros fd. apply (proj2 (otoks_incl fd)).
+Qed.
+
 End Unique.
